@@ -26,6 +26,10 @@ CHECKS = {
             "schedule exploration at logical instants: the VM probe cancels the context from inside the VM goroutine at the k-th dispatched instruction while build-tagged yield points perturb the caller side; online monitors on return value, instructions dispatched after the abort flag, goroutine dump, re-run result; all under the Go race detector",
             "Script families (never-ending when limit = -1) are cancelled at instants 0 (already cancelled), 1, 2, inside, last instruction, after finish. The returned error must be ctx.Err() or, only if the script finished, its own result; at most one instruction may be dispatched once the abort flag is set; the flag must become visible within 5*10^7 instructions and 10 s; no goroutine with VM frames may survive; the same Compiled must then run a finite limit correctly. Direct VM reuse (Run, Abort, Run) is driven as well. The harness is built with -race (halt_on_error=1). Held on the (script, limit, instant) triples listed in evidence.",
             "Bounded-progress restatement of 'promptly': measured in dispatched instructions after the flag is set. Go scheduler latency between cancel() and Abort() is outside the engine."),
+    "C08": ("exploration",
+            "Go race detector (harness built with -race, halt_on_error=1) over a concurrent clone workload aimed at shared state, differential isolation monitor against each clone's sequential replay, porcupine linearizability check of recorded API histories on one object, deadline-stress of RunContext interleaved with API calls",
+            "Script families touching shared constants, file-set lookups, modules, closures, mutable and inherited inputs and the formatter pool are compiled once; 8 clones (taken concurrently, before and after a run) run 6 iterations each on 8 goroutines with unique inputs while yield points inside Clone widen the window; every result is compared with the same clone sequence replayed sequentially afterwards, the original must stay unchanged, ReplaceBuiltinModule on one clone runs meanwhile. Histories of Set/Get/IsDefined/Run/Clone by 4 clients on one object are checked with porcupine against a sequential model. Any data race in tengo frames ends the worker and is reported with its stacks. Held on the executions listed in evidence; interleavings are sampled, not enumerated.",
+            "Trusted: the Go race detector; porcupine v1.3.0. Known finding (recorded in known_findings.jsonl): clones taken after a run share closure cells."),
     "C09": ("exploration",
             "history-over-one-object runtime monitor: shadow snapshot of the immutable value taken through Compiled.Get after its creation and after every operation of a random sequence, each operation being its own RunContext on the same Compiled",
             "Immutable values of four origins (immutable expression, freeze, module export, builtin-module table) built from fresh nested literals are subjected to random sequences of up to 12 operations on themselves and on everything derived from them; after every step the snapshot (whole tree for frozen values, immutable spine for shallow ones) must equal the first one. freeze is additionally checked for equality with its argument, no mutable container reachable from the result, and independence from later writes to the argument. Held on the sequences listed in evidence.",
